@@ -38,7 +38,7 @@ def items(tier):
     out = []
     k = 0
     for n in (1, 2, 3):
-        for ib in range(len(BUNDLE_FORMS)):
+        for ib in range(len(BUNDLE_FORMS) + 2):  # + two forms whose members are wired per element (n times the member's width)
             for cw in range(3):
                 out.append(("bundle", n, 1, ib, cw, k))
                 k += 1
@@ -78,8 +78,10 @@ def design_bundle(desc):
         decls.append(("sig", nm, ww))
         decls.append(probe("p_" + nm, nm, ww, tag=4))
     decls += [("binst", "bb", "B1"), ("binst", "b2", "B2"), ("bport", "pbb", "B1", False, None), ("binst", "sb", "B1"),
-              ("inst", "solob", ("mod", "InB"), [("c", sig("s"))] + ([] if BUNDLE_FORMS[ib][0] == "pref" else [("bp", ("b", "sb"))]))]
-    decls.append(("array", "arr", ("mod", "InB"), n, [("bp", BUNDLE_FORMS[ib]), ("c", cexpr)]))
+              ("inst", "solob", ("mod", "InB"), [("c", sig("s"))] + ([] if ib < len(BUNDLE_FORMS) and BUNDLE_FORMS[ib][0] == "pref" else [("bp", ("b", "sb"))]))]
+    forms = BUNDLE_FORMS + [("anon", [("x", rng(sig("t"), 0, n)), ("y", sig("v"))]),
+                            ("anon", [("x", sig("s")), ("y", rng(sig("t"), 0, 2 * n))])]
+    decls.append(("array", "arr", ("mod", "InB"), n, [("bp", forms[ib]), ("c", cexpr)]))
     top = {"name": "Top", "style": ["proc", "class", "gen"][k % 3], "decls": decls}
     return "F5/bundle", {"bundles": BUNDLES, "exts": exts, "modules": {"InB": inb, "Top": top}, "top": "Top"}
 
